@@ -4,7 +4,58 @@ member of a finite family of texts."""
 from . import pe
 
 
+_WS = b" \t\n\v\f\r"
+
+
+def ctype_flags(c):
+    """glibc's ctype table entry (__ctype_b_loc) in the C locale"""
+    if not 0 <= c < 128:
+        return 0
+    ch = chr(c)
+    fl = 0
+    if ch.isupper():
+        fl |= 1 << 8
+    if ch.islower():
+        fl |= 1 << 9
+    if ch.isalpha():
+        fl |= 1 << 10
+    if ch.isdigit():
+        fl |= 1 << 11
+    if ch in "0123456789abcdefABCDEF":
+        fl |= 1 << 12
+    if c in _WS:
+        fl |= 1 << 13
+    if 32 <= c < 127:
+        fl |= 1 << 14
+    if 32 < c < 127:
+        fl |= 1 << 15
+    if ch in " \t":
+        fl |= 1 << 0
+    if c < 32 or c == 127:
+        fl |= 1 << 1
+    if 32 < c < 127 and not ch.isalnum():
+        fl |= 1 << 2
+    if ch.isalnum():
+        fl |= 1 << 3
+    return fl
+
+
 class StrPE(pe.PE):
+    def load(self, state, addr, type_):
+        # the C-locale character class table behind isspace() / isdigit() ...: (*__ctype_b_loc())[c]
+        if addr[0] == "ptr" and addr[1] in ("ctypeloc", "ctype"):
+            loc = self._loc(state, addr)
+            if loc is not None:
+                if loc[0] == "ctypeloc" and not loc[1]:
+                    return ("ptr", "ctype", ())
+                if loc[0] == "ctype":
+                    el, fl = pe.fields_of(loc[1])
+                    if not fl and isinstance(el, int) and -128 <= el < 256:
+                        v = ctype_flags(el)
+                        return pe.C(v if v < 32768 else v - 65536)
+            return pe.TOP
+        return super().load(state, addr, type_)
+
     @staticmethod
     def _at(p, k):
         if k == 0:
@@ -20,7 +71,7 @@ class StrPE(pe.PE):
         v = self.load(state, self._at(p, k), "i8")
         return v[1] % 256 if pe.is_const(v) else None
 
-    def _cstr(self, state, p, limit=200):
+    def _cstr(self, state, p, limit=600):
         if p[0] != "ptr":
             return None
         out = bytearray()
@@ -39,6 +90,8 @@ class StrPE(pe.PE):
 
     def libc_string_model(self, state, frame, i, args):
         nm = i.callee
+        if nm == "__ctype_b_loc":
+            return ("ptr", "ctypeloc", ())
         if nm == "strchr":
             s = self._cstr(state, args[0])
             if s is None or not pe.is_const(args[1]):
@@ -60,8 +113,71 @@ class StrPE(pe.PE):
                 return None
             self._write(state, self._at(args[0], len(a)), b + b"\0")
             return args[0]
+        if nm in ("strcpy", "stpcpy"):
+            b = self._cstr(state, args[1], 600)
+            if b is None or args[0][0] != "ptr":
+                return None
+            self._write(state, args[0], b + b"\0")
+            return args[0] if nm == "strcpy" else self._at(args[0], len(b))
+        if nm == "strncpy":
+            b = self._cstr(state, args[1], 600)
+            if b is None or args[0][0] != "ptr" or not pe.is_const(args[2]) or not 0 <= args[2][1] <= 600:
+                return None
+            k = args[2][1]
+            self._write(state, args[0], (b + b"\0" * k)[:k])
+            return args[0]
+        if nm in ("strdup", "strndup"):
+            b = self._cstr(state, args[0], 600)
+            if b is None:
+                return None
+            if nm == "strndup":
+                if not pe.is_const(args[1]):
+                    return None
+                b = b[:max(0, args[1][1])]
+            state.nfresh += 1
+            p = ("ptr", "heap#%d" % state.nfresh, ())
+            self._write(state, p, b + b"\0")
+            return p
+        if nm in ("malloc", "calloc", "realloc") and getattr(self, "model_alloc", False):
+            if nm == "realloc":
+                return None
+            state.nfresh += 1
+            p = ("ptr", "heap#%d" % state.nfresh, ())
+            if nm == "calloc" and all(pe.is_const(a) for a in args[:2]) and 0 <= args[0][1] * args[1][1] <= 600:
+                self._write(state, p, b"\0" * (args[0][1] * args[1][1]))
+            return p
+        if nm == "free" and getattr(self, "model_alloc", False):
+            return pe.C(0)
+        if nm == "strnlen":
+            s = self._cstr(state, args[0], 600)
+            if s is None or not pe.is_const(args[1]):
+                return None
+            return pe.C(min(len(s), args[1][1]))
+        if nm in ("strcmp", "strncmp", "memcmp"):
+            if nm == "memcmp":
+                if not pe.is_const(args[2]) or not 0 <= args[2][1] <= 600:
+                    return None
+                a = [self._byte(state, args[0], k) for k in range(args[2][1])]
+                b = [self._byte(state, args[1], k) for k in range(args[2][1])]
+                if any(x is None for x in a + b):
+                    return None
+                a, b = bytes(a), bytes(b)
+            else:
+                a, b = self._cstr(state, args[0], 600), self._cstr(state, args[1], 600)
+                if a is None or b is None:
+                    return None
+                if nm == "strncmp":
+                    if not pe.is_const(args[2]):
+                        return None
+                    a, b = a[:args[2][1]], b[:args[2][1]]
+            return pe.C((a > b) - (a < b))
+        if nm == "memset" or (nm or "").startswith("llvm.memset"):
+            if args[0][0] != "ptr" or not pe.is_const(args[1]) or not pe.is_const(args[2]) or not 0 <= args[2][1] <= 600:
+                return None
+            self._write(state, args[0], bytes([args[1][1] % 256]) * args[2][1])
+            return args[0]
         if nm in ("memmove", "memcpy") or (nm or "").startswith("llvm.memmove") or (nm or "").startswith("llvm.memcpy"):
-            if not pe.is_const(args[2]) or args[2][1] < 0 or args[2][1] > 400:
+            if not pe.is_const(args[2]) or args[2][1] < 0 or args[2][1] > 600:
                 return None
             data = [self._byte(state, args[1], k) for k in range(args[2][1])]
             if any(d is None for d in data):
